@@ -338,6 +338,10 @@ def main(pid, argv=None):
             extra.append(([cc.param("p1", dict(k="coded", dct=cc.std(cc.BUINT, 16), v=32911), 0, 4),
                            cc.param("p2", dict(k="value", dop=cc.simple(cc.std(cc.BUINT, 3)), dflt=None), 2)],
                           False, None))
+            # corpus: a response mirroring two request bytes (asked with requests ending inside the mirrored range)
+            extra.append(([cc.param("sid", dict(k="coded", dct=cc.std(cc.BUINT, 8), v=0x62)),
+                           cc.param("did", dict(k="matchreq", rqpos=1, len=2)),
+                           cc.param("p3", dict(k="value", dop=cc.simple(cc.std(cc.BUINT, 8)), dflt=None))], True, None))
         cases = cr.build_cases(rng, n_desc, values_per_stream=vps, decode_budget=budget, want_static=(pid == "C08"),
                                extra_descs=extra, use_corpus=True)
     if pid in ("C04", "C01", "C02") and not ck.replay:
@@ -709,6 +713,37 @@ def check_static(ck, c, model_ok):
         if sorted(settable) != sorted(free):
             ck.violation(f"free parameters reported {free}, settable are {settable}", rep(c))
             return
+    # responses which mirror request bytes: the same response object asked again with other triggering requests of the
+    # same length, with every proper prefix of the request and with a longer one (a response object is shared by
+    # services; what it reported for one request says nothing about the next)
+    base = next((e for e in c.encs if e["impl"][0] == 0 and isinstance(e["value"], dict) and e["req"]), None)
+    if c.is_resp and base is not None and has_kind(c.params, ("matchreq",)):
+        rq = bytes(base["req"])
+        for rq2 in [bytes(b ^ 0x5A for b in rq)] + [rq[:k] for k in range(len(rq))] + [rq + b"\x01"]:
+            ck.count(("s-rq", json.dumps(c.params, default=repr), rq2))
+            r2 = cc.impl_encode(c.obj, base["value"], rq2)
+            if r2[0] != 0 or r2[2]:
+                continue
+            pdu2 = bytes(r2[1])
+            e2 = dict(base, req=rq2)
+            if sb is not None and 8 * len(pdu2) != sb and not zero_size_struct(c.params):
+                kf = ck.match_known(known_tags(c, e2, "static length"))
+                if kf:
+                    ck.known_finding(kf["id"], kf["what"])
+                else:
+                    ck.violation(f"static bit length {sb} reported but the encoding for the triggering request {rq2.hex()!r} "
+                                 f"has {8 * len(pdu2)} bits ({pdu2.hex()})", rep(c, value=base["value"], req=rq2, static=sb))
+                return
+            st2 = cc.impl_static(c.obj, rq2)
+            if isinstance(st2, list) and len(st2) == 4 and st2[3][0] == 0 and not pdu2.startswith(bytes(st2[3][1])):
+                kf = ck.match_known(known_tags(c, e2, "reported constant prefix"))
+                if kf:
+                    ck.known_finding(kf["id"], kf["what"])
+                    return
+                ck.violation(f"for the triggering request {rq2.hex()!r} the constant prefix {bytes(st2[3][1]).hex()} is reported, "
+                             f"which is no prefix of the encoding {pdu2.hex()} (asked before with request {rq.hex()})",
+                             rep(c, value=base["value"], req=rq2))
+                return
     if model_ok and "model" in st:
         a, b = impl, st["model"]
         b = [b[0], b[1], b[2], b[3] if b[3][:2] != [-1, 5] else [-1, 5]]
